@@ -70,9 +70,15 @@ def gen_valext():
     need("lyplg_type_sort_union", b, [
         ("same member: the member's sort",
          "if(val1->subvalue->value.realtype==val2->subvalue->value.realtype){returnval1->subvalue->value.realtype->plugin->sort(ctx,&val1->subvalue->value,&val2->subvalue->value);}"),
-        ("different members: position in the types array, earlier member is the greater one",
-         "LY_ARRAY_FOR(types,u){if(types[u]==val1->subvalue->value.realtype){rc=1;break;}elseif(types[u]==val2->subvalue->value.realtype){rc=-1;break;}}"),
         ("result", "returnrc;}")])
+    # different members: position in the types array, the earlier member is the greater one; repaired (F424): a leafref member is looked up by the
+    # type of its target (the realtype of the values it stores)
+    loop_pinned = "LY_ARRAY_FOR(types,u){if(types[u]==val1->subvalue->value.realtype){rc=1;break;}elseif(types[u]==val2->subvalue->value.realtype){rc=-1;break;}}"
+    loop_fixed = ("LY_ARRAY_FOR(types,u){conststructlysc_type*type=types[u];if(type->basetype==LY_TYPE_LEAFREF){type=((structlysc_type_leafref*)type)->realtype;}"
+                  "if(type==val1->subvalue->value.realtype){rc=1;break;}elseif(type==val2->subvalue->value.realtype){rc=-1;break;}}")
+    sort_lref = loop_fixed in b
+    if (loop_pinned in b) == sort_lref:
+        missing.append("lyplg_type_sort_union: loop over the types array of an unknown shape")
     b = body_of("plugins_types/union.c", "lyb_union_validate")
     need("lyb_union_validate", b, [("size check", "if(lyb_data_len<TYPE_IDX_SIZE){"), ("index check", "if(type_idx>=LY_ARRAY_COUNT(type_u->types)){"),
                                    ("little-endian index", "memcpy(&type_idx,lyb_data,TYPE_IDX_SIZE);type_idx=le64toh(type_idx);")])
@@ -191,6 +197,9 @@ def gen_valext():
            "/-- identityref.c `lyplg_type_sort_identityref`: the module name is compared when the identity names are equal (false on the pinned",
            "    tree: names only, finding F411) -/",
            "def identSortModule : Bool := %s" % ("true" if sort_module else "false"),
+           "/-- union.c `lyplg_type_sort_union`: a leafref member is looked up by its target's type (false on the pinned tree: values of leafref",
+           "    members are never found, finding F424) -/",
+           "def unionSortLeafrefTarget : Bool := %s" % ("true" if sort_lref else "false"),
            "/-- date_and_time.c `lyplg_type_sort_date_and_time`: the sign of the time difference is returned (repaired, F413); false on the pinned",
            "    tree: `(int)difftime(..)`, undefined for instants 2^31 s or more apart -/",
            "def dtSortClamped : Bool := %s" % ("true" if dt_sort_clamped else "false"),
